@@ -259,7 +259,10 @@ var ruleTokenRange = &Rule{
 							break
 						}
 						if _, isC := c.Call.Args[idx].(*ssa.Const); !isC {
-							all = false
+							// … or a character already bounded where it is handed over
+							if c.Block() == nil || judge(c.Parent(), c.Call.Args[idx], factsAt(c.Block()), depth+2) != "" {
+								all = false
+							}
 						}
 					}
 					if all {
@@ -318,7 +321,7 @@ var ruleTokenRange = &Rule{
 			}
 		}
 		out.Counts["token_returns_examined"] = nret
-		out.Floors["token_returns_examined"] = 10
+		out.Floors["token_returns_examined"] = 3
 		return out
 	},
 }
